@@ -946,6 +946,33 @@ fn gen_component(rng: &mut Rng, sw: &Swarm, index: usize) -> Component {
             add_defaults(rng, sw, d, &defs_model, true);
         }
     }
+    // a wrapper type with a default of its own, and a property of that type whose
+    // default OVERRIDES it - sometimes with the zero value of the wrapped type
+    // (the property's default wins; the wrapper's own default is for other uses)
+    if sw.dense_defaults && rng.chance(1, 3) {
+        let spell = |w: &str| -> String {
+            match names.first().map(|n| n.as_str()) {
+                Some(n) if n.contains('_') => format!("{}_{}", prefix.to_lowercase(), w.to_lowercase()),
+                Some(n) if n.contains('-') => format!("{}-{}", prefix.to_lowercase(), w.to_lowercase()),
+                _ => format!("{prefix}{w}"),
+            }
+        };
+        // the holder sorts after the wrapper in half of the cases (reference already
+        // resolved when the holder is converted) and before it in the other half
+        let wrapper = spell("Label");
+        let holder = if rng.chance(1, 2) { spell("Mholder") } else { spell("Holder") };
+        if !defs.contains_key(&wrapper) && !defs.contains_key(&holder) {
+            let own = *rng.pick(&["abc", "zz", "q"]);
+            let over = *rng.pick(&["", "", "xy", "abc"]);
+            defs.insert(wrapper.clone(), json!({"type": "string", "maxLength": 5, "default": own}));
+            let prop = if rng.chance(1, 2) {
+                json!({"$ref": format!("#/definitions/{wrapper}"), "default": over})
+            } else {
+                json!({"allOf": [{"$ref": format!("#/definitions/{wrapper}")}], "default": over})
+            };
+            defs.insert(holder, json!({"type": "object", "properties": {"label": prop, "count": {"type": "integer"}}}));
+        }
+    }
     Component {
         prefix,
         defs: defs.into_iter().collect(),
